@@ -87,3 +87,39 @@ Proof.
   apply (for_enum_fill b Hb ws avals [] b [] init); auto.
 Qed.
 End Fill.
+
+(* ---- invariants through for_each ---- *)
+Lemma for_each_inv {S} (Inv : S -> Prop) (body : Z -> S -> res S) ws s0 s' :
+  Inv s0 -> (forall j s s1, In j ws -> Inv s -> body j s = Ok s1 -> Inv s1) ->
+  for_each ws body s0 = Ok s' -> Inv s'.
+Proof.
+  revert s0. induction ws as [|j ws IH]; intros s0 H0 Hstep Hrun; simpl in Hrun.
+  - inversion Hrun; subst; assumption.
+  - apply bind_ok in Hrun as (s1 & Hb & Hrest).
+    apply (IH s1); [eapply Hstep; eauto; left; reflexivity| |assumption].
+    intros; eapply Hstep; eauto. right; assumption.
+Qed.
+
+(* totality: if every step from an invariant state succeeds and preserves it, the loop succeeds *)
+Lemma for_each_total {S} (Inv : S -> Prop) (body : Z -> S -> res S) ws s0 :
+  Inv s0 -> (forall j s, In j ws -> Inv s -> exists s1, body j s = Ok s1 /\ Inv s1) ->
+  exists s', for_each ws body s0 = Ok s' /\ Inv s'.
+Proof.
+  revert s0. induction ws as [|j ws IH]; intros s0 H0 Hstep; simpl.
+  - eauto.
+  - destruct (Hstep j s0 (or_introl eq_refl) H0) as (s1 & Hb & H1). rewrite Hb. cbn [bind].
+    apply IH; [assumption|]. intros; apply Hstep; [right|]; assumption.
+Qed.
+
+Ltac inv_binds :=
+  repeat match goal with
+  | H : bind ?x ?f = Ok _ |- _ => let a := fresh "v" in let Ha := fresh "Hv" in
+      apply bind_ok in H as (a & Ha & H)
+  | H : ret _ = Ok _ |- _ => unfold ret in H
+  | H : Ok _ = Ok _ |- _ => inversion H; subst; clear H
+  end.
+
+Lemma for_each_inv' {S} (Inv : S -> Prop) (body : Z -> S -> res S) ws s0 s' :
+  for_each ws body s0 = Ok s' ->
+  Inv s0 -> (forall j s s1, In j ws -> Inv s -> body j s = Ok s1 -> Inv s1) -> Inv s'.
+Proof. intros; eapply for_each_inv; eauto. Qed.
